@@ -59,8 +59,20 @@ class HarnessError(Exception):
 _MOD = None
 
 
+def _die_with_parent():
+    """workers and their forked children must not outlive a killed driver (a worker stuck in a non-returning library call
+    would otherwise spin forever)"""
+    try:
+        import ctypes
+        import signal
+        ctypes.CDLL('libc.so.6').prctl(1, signal.SIGKILL)      # PR_SET_PDEATHSIG
+    except Exception:
+        pass
+
+
 def _init_worker(modname):
     global _MOD
+    _die_with_parent()
     import torch
     torch.set_num_threads(1)
     import warnings
@@ -95,6 +107,7 @@ def _fork_run(chunk, budget):
     pid = os.fork()
     if pid == 0:
         code = 0
+        _die_with_parent()
         try:
             os.close(r)
             data = pickle.dumps(_run_inline(chunk))
